@@ -211,6 +211,10 @@ def _scenario(r, idx, want=None):
             d = min(4 * tol, 0.45 * s)
         if j == 1 and 'spacing_hint' not in opts:
             j = 2                       # planes 0 and 1 define the spacing when there is no hint
+        if 'spacing_hint' not in opts and (ks[j] - 1 in ks or ks[j] + 1 in ks):
+            # moving a plane that has a direct neighbour would change the smallest gap itself (that input class is the open
+            # finding C11-gaps-min-gap-estimate and has its own stream): give the spacing as a hint here
+            opts['spacing_hint'] = s
         offs[j] = d * r.choice([-1, 1]) * nrm
         expect_ok = sc in ('missing_jitter_in', 'gaps_far_in') and d <= tol / 2
         if not expect_ok and d < 2 * tol:
